@@ -121,16 +121,17 @@ Theorem C02_nest_force_torque_zero : forall (pf : nat -> nat -> R -> option R) (
 Proof. exact nest_force_torque_zero. Qed.
 Print Assumptions C02_nest_force_torque_zero.
 
-(* REB_GRAVITY_JACOBI, every N, whatever the accelerations held before: particle k receives
-   (the specification with gravity_ignore_terms = 1, all particles active, no softening, no ghost boxes: every pair
-    except {0,1})  +  jacobi_terms k  =  sum over j >= 2, j >= k of  G * w * Q_j / |Q_j|^3  with
+(* REB_GRAVITY_JACOBI (as of /repo 5e0a0a8: the direct term follows N_active / testparticle_type), every N, every
+   0 <= N_active <= N and testparticle_type, whatever the accelerations held before: particle k receives
+   (the specification with gravity_ignore_terms = 1, that N_active and testparticle_type, no softening, no ghost boxes)
+   +  jacobi_terms k  =  sum over j >= 2, j >= k of  G * w * Q_j / |Q_j|^3  with
    Q_j = x_j - R_j/M_j (R_j = sum_{i<j} m_i x_i, M_j = sum_{i<j} m_i), w = -m_j for k < j and w = M_j for k = j.
    This is the split that WHFast composes: with REB_GRAVITY_BASIC + ignore_terms = 1 the same Jacobi terms are
    added by reb_whfast_interaction_step instead (that equivalence, in Jacobi coordinates, is NOT proved here). *)
-Theorem C02_jacobi_decomp : forall G (ps : list (Part R)) (acc0 : list RV3) k,
-  length acc0 = length ps -> (k < length ps)%nat ->
-  nth_d vzero (grav_jacobi RNum G ps acc0) k =
-  vadd (acc_spec G 0 0 0 0 0 0 0 1 (length ps) true ps k) (jacobi_terms G ps k).
+Theorem C02_jacobi_decomp : forall G nact tp (ps : list (Part R)) (acc0 : list RV3) k,
+  (nact <= length ps)%nat -> length acc0 = length ps -> (k < length ps)%nat ->
+  nth_d vzero (grav_jacobi RNum G nact tp ps acc0) k =
+  vadd (acc_spec G 0 0 0 0 0 0 0 1 nact tp ps k) (jacobi_terms G ps k).
 Proof. intros. rewrite acc_spec_noghost. now apply jacobi_decomp. Qed.
 Print Assumptions C02_jacobi_decomp.
 
@@ -154,7 +155,7 @@ Print Assumptions C02_L_C4_C5_poly_monotone.
 Theorem C02_jacobi_eq_basic_plus_whterm : forall G (ps : list (Part R)),
   (forall k, (1 <= k < length ps)%nat -> Mf (mass_ ps) k <> 0) ->
   forall (acc0 : list RV3) bx by_ bz tp c i, length acc0 = length ps -> (1 <= i < length ps)%nat ->
-  nth_d 0 (Jacc ps c (grav_jacobi RNum G ps acc0)) i =
+  nth_d 0 (Jacc ps c (grav_jacobi RNum G (length ps) tp ps acc0)) i =
   nth_d 0 (Jacc ps c (grav_basic RNum G 0 bx by_ bz 0 0 0 1 (length ps) tp ps)) i
   + (if (1 <? i)%nat then proj c (vscale (wh_rj3iM G 0 (Mf (mass_ ps) (S i)) (JQ ps i)) (JQ ps i)) else 0).
 Proof. exact jacobi_eq_basic_plus_whterm. Qed.
